@@ -9,6 +9,11 @@ jobs.json = {"so": path, "jobs": [ {"id":…, "engines":[option, …], "scripts"
   S = {"system": <rdsystem dict>, "kw": {RDScript keyword arguments}}
       kw["__seed_as__"] = "str" | "np_int64" | "array0" | "float": the TYPE in which rng_seed is handed to RDScript
       kw["__from_dict__"] = true: the script is built by rdscript_from_dict from a dictionary (seed under the key "seed")
+      kw["__tsample_first__"] = [..]: the script is constructed with THIS request list, then `script.t_sample = <kw t_sample>`
+      S["system_ops"] = [{"op":"chem_file","layout":"rows"|"lines"|"one_line","newline":bool}   (chemostat map loaded from a text file)
+                         | {"op":"refuse_space"}]  (system.space = <space naming an undefined environment> must raise; caught)
+      S["edits"] = [{"op":"refuse","attr":a,"value":v}]   (script.a = v must raise; caught; the script must be as before)
+      what happened is reported by setup / simulate as "edits": [{"op":…, "raised": "<exception>" | null}]
   C = {"obj":i,"call":"setup","script":k} | {"obj":i,"call":"iterate"|"sample"|"get_progress"|"is_complete"|
        "get_output"|"finalize"} | {"obj":i,"call":"iterate_n","n":k} | {"obj":i,"call":"run","ms":m}
      | {"obj":i,"call":"drive","max":N,"samples":[step indices after which sample() is called],"state":bool}
@@ -80,6 +85,16 @@ def main():
                         got = len(a[k]) if hasattr(a[k], "__len__") else None
                         if got != w:
                             rec["bad"].append({"arg": k, "buffer_length": got, "count_passed": w})
+                    # indices the engine uses as subscripts
+                    rec["bad_values"] = []
+                    envs = [int(v) for v in a["cell_env"]]
+                    if any(v < 0 or v >= cnt["n_env"] for v in envs):
+                        rec["bad_values"].append({"arg": "cell_env", "value": [v for v in envs if v < 0 or v >= cnt["n_env"]][0], "limit": cnt["n_env"]})
+                    if "n_edges" in cnt:
+                        for nm in ("edge_i", "edge_j"):
+                            vs = [int(v) for v in a[nm]]
+                            if any(v < 0 or v >= n for v in vs):
+                                rec["bad_values"].append({"arg": nm, "value": [v for v in vs if v < 0 or v >= n][0], "limit": n})
                 except Exception as ex:  # noqa
                     rec["inspect_error"] = type(ex).__name__ + ": " + str(ex)[:100]
                 rc = real(*args)
@@ -130,10 +145,80 @@ def main():
             pass
         return sc
 
+    def build_system(S, log):
+        import copy, tempfile, shutil
+        sysd = S["system"]
+        ops = S.get("system_ops", [])
+        system = st.rdsystem_from_dict(sysd)
+        for op in ops:
+            if op["op"] == "chem_file":
+                # the same system, its chemostat map read from a TEXT file with the values over several lines
+                ch = [int(v) for v in system.chemostats]
+                ns = len(system.network.species)
+                nc = max(len(ch) // max(ns, 1), 1)
+                if op.get("layout") == "rows":
+                    lines = [" ".join(str(v) for v in ch[i * nc:(i + 1) * nc]) for i in range(ns)]
+                elif op.get("layout") == "lines":
+                    lines = [str(v) for v in ch]
+                else:
+                    lines = [", ".join(str(v) for v in ch)]
+                d = tempfile.mkdtemp(prefix="life_sys_")
+                try:
+                    with open(d + "/chemostats.txt", "w", newline="") as f:
+                        f.write(("\r\n" if op.get("crlf") else "\n").join(lines) + ("\n" if op.get("newline", True) else ""))
+                    dd = copy.deepcopy(sysd)
+                    dd["chemostats"] = "chemostats.txt"
+                    system = st.rdsystem_from_dict(dd, base_path=d)
+                finally:
+                    shutil.rmtree(d, ignore_errors=True)
+                log.append({"op": "chem_file", "raised": None, "expected_len": len(ch), "len": len(system.chemostats)})
+            elif op["op"] == "refuse_space":
+                from strengths.rdspace import rdspace_from_dict
+                bad = copy.deepcopy(sysd["space"])
+                nenv = len(sysd["network"].get("environments", ["default"]))
+                if bad["type"] == "grid":
+                    bad["cell_env"] = list(bad["cell_env"])
+                    bad["cell_env"][-1] = nenv + op.get("beyond", 0)
+                else:
+                    bad["nodes"][-1]["environment"] = nenv + op.get("beyond", 0)
+                rec = {"op": "refuse_space", "raised": None}
+                try:
+                    system.space = rdspace_from_dict(bad)
+                except Exception as ex:  # noqa
+                    rec["raised"] = type(ex).__name__
+                log.append(rec)
+        return system
+
+    def apply_edits(sc, S, log):
+        for ed in S.get("edits", []):
+            if ed["op"] == "refuse":
+                rec = {"op": "refuse", "attr": ed["attr"], "value": ed["value"], "raised": None}
+                v = ed["value"]
+                if isinstance(v, dict) and "__unitarray__" in v:
+                    v = st.UnitArray(v["__unitarray__"], v["units"])
+                try:
+                    setattr(sc, ed["attr"], v)
+                except Exception as ex:  # noqa
+                    rec["raised"] = type(ex).__name__
+                log.append(rec)
+
     def build_script0(S):
+        log = []
+        sc = build_script1(S, log)
+        apply_edits(sc, S, log)
+        try:
+            sc._verif_edits = log
+        except Exception:  # noqa
+            pass
+        return sc
+
+    def build_script1(S, log):
         kw = dict(S["kw"])
         seed_as = kw.pop("__seed_as__", None)
         from_dict = kw.pop("__from_dict__", False)
+        ts_first = kw.pop("__tsample_first__", None)
+        if S.get("system_ops") or ts_first is not None:
+            from_dict = False
         if "rng_seed" in kw:
             kw["rng_seed"] = typed_seed(kw["rng_seed"], seed_as)
         if from_dict and "units_system" not in kw and not isinstance(kw.get("t_sample"), dict):
@@ -142,7 +227,7 @@ def main():
             for k, v in kw.items():
                 d["seed" if k == "rng_seed" else k] = v
             return rdscript_from_dict(d)
-        system = st.rdsystem_from_dict(S["system"])
+        system = build_system(S, log)
         ts = kw.get("t_sample")
         if isinstance(ts, dict) and "__unitarray__" in ts:
             form = ts.get("form", "unitarray")
@@ -153,6 +238,14 @@ def main():
                 kw["t_sample"] = ["%r %s" % (v, ts["units"]) for v in ts["__unitarray__"]]
             else:
                 kw["t_sample"] = st.UnitArray(ts["__unitarray__"], ts["units"])
+        if ts_first is not None:
+            # constructor with another request list, then the assignment (t_max left at its default follows the new list)
+            real = kw["t_sample"]
+            kw["t_sample"] = ts_first
+            sc = st.RDScript(system, **kw)
+            sc.t_sample = real
+            log.append({"op": "t_sample_after_construction", "raised": None})
+            return sc
         return st.RDScript(system, **kw)
 
     def script_fp(sc):
@@ -262,6 +355,7 @@ def main():
                     except Exception as ex:  # noqa
                         meta["meta_error"] = type(ex).__name__
                     res["meta"] = meta
+                    res["edits"] = getattr(sc, "_verif_edits", [])
                     fp0 = script_fp(sc)
                     try:
                         e.setup(sc)
@@ -322,6 +416,7 @@ def main():
                         src = scripts[si]
                     else:
                         src = last_out.script
+                    res["edits"] = getattr(src, "_verif_edits", [])
                     fp0 = script_fp(src)
                     try:
                         last_out = simulate_script(src, e)
